@@ -520,6 +520,16 @@ func (s *PathState) applyTemplateMode(call *ssa.Call, g *ssa.Function, t *PathSt
 			}
 			r = rebuildTag(x, as, tag)
 		}
+		if x.Fields != nil && r != nil && x.Op != "tablerow" && x.Op != "const" {
+			// a struct value built in the callee: its remembered field values are the callee's terms too
+			n := *r
+			n.Fields = make(map[string]*Term, len(x.Fields))
+			memo[x] = &n
+			for k, v := range x.Fields {
+				n.Fields[k] = tr(v)
+			}
+			r = &n
+		}
 		memo[x] = r
 		return r
 	}
